@@ -35,14 +35,23 @@ for _f in sorted(glob.glob(os.path.join(os.path.dirname(os.path.abspath(__file__
     PROPS.update(json.load(open(_f)))
 
 ENGINES = [
-    {"name": "E1 clustersim", "path": "sim/sim", "serves_properties": ["C02"],
-     "kind_free_text": "real rqlite nodes (store+raft+bbolt+SQLite+cluster service/client+proxy+mux) in one testing/synctest bubble over a simulated network; one event per scheduler step chosen by a seeded PRNG"},
+    {"name": "E1 clustersim", "path": "sim/sim (+ sim/node, sim/simnet, sim/simclock)",
+     "serves_properties": ["C01", "C02", "C03", "C13", "C14", "C16", "C17", "C18", "C20", "C21", "C22", "C23", "C25", "C27", "C32", "C33", "C35", "C37", "C38"],
+     "kind_free_text": "real rqlite nodes (store+raft+bbolt+SQLite+cluster service/client+proxy+mux, optional HTTP service, CDC service, uploader) in one testing/synctest bubble over a simulated network; one event per scheduler step chosen by a seeded PRNG; crash = directory image"},
+    {"name": "E2 crashsim (snapshot store)", "path": "sim/crash, sim/snapsim", "serves_properties": ["C07", "C08", "C09"],
+     "kind_free_text": "real snapshot.Store / plan executor / upgrader driven sequentially; directory image at every verifhook occurrence and every fsutil.SyncDir, recovery run crashed again; I/O errors injected at hook points"},
+    {"name": "E2 store engine", "path": "sim/props/storeeng.go", "serves_properties": ["C03", "C04"],
+     "kind_free_text": "single real store.Store (raft, bbolt, SQLite, snapshot store) in a bubble; image at the k-th hook occurrence or quiescent point; clone rebuilt down the other restart path"},
+    {"name": "transfer engine", "path": "sim/xfer", "serves_properties": ["C10", "C12"],
+     "kind_free_text": "real snapshot streamer -> NodeTransport.InstallSnapshot (+-zstd) -> raft NetworkTransport -> simnet with split/flip/drop/insert/truncate -> consumer -> sink -> restore; corruption at rest of every data file and sidecar x every consumer"},
     {"name": "E3 walsim", "path": "sim/walsim", "serves_properties": ["C05", "C06"],
      "kind_free_text": "one driver goroutine holding several connections (rqlite db.DB write connection + CheckpointManager, reader connections holding read marks) to one real WAL-mode SQLite database; a seeded schedule decides which connection acts next (writer transaction, reader start/stop, snapshot attempt, disk fault on a WAL copy); SQLite itself is the reference for applying WALs"},
-    {"name": "E2 crashsim (snapshot store)", "path": "sim/crash, sim/snapsim", "serves_properties": ["C07", "C08", "C09"],
-     "kind_free_text": "the real snapshot.Store / upgraders / plan executor driven sequentially by a stand-in for store.Store over a real SQLite history; a crash is a directory image taken inside the verifhook handler at the k-th hook occurrence (every occurrence enumerated, plus a second crash during each recovery run, plus derived torn states), restored at the same path and re-opened; restore-and-dump oracle and abstract catalog model"},
     {"name": "E3 schedsim", "path": "sim/sched", "serves_properties": ["C11", "C24", "C31", "C34", "C36"],
-     "kind_free_text": "seeded cooperative scheduler inside a testing/synctest bubble: harness tasks and adopted rqlite goroutines park at yield points (harness calls, verifhook.Yield in queue/throttler/snapshot store), one parked task or a clock quantum is chosen per step by the run's PRNG; mutexes held across blocking points are modelled"},
+     "kind_free_text": "tasks parked at yield points (harness-level and verifhook.Yield in rqlite) and released one at a time by a seeded scheduler under the fake clock; mutexes held across blocking points are modelled"},
+    {"name": "hostile peer", "path": "sim/hostile", "serves_properties": ["C18", "C35"],
+     "kind_free_text": "a simnet host that speaks and mis-speaks the inter-node protocol (credential matrix, generated and mutated byte streams), wire tap, decode-based reference model"},
+    {"name": "CDC queue engine", "path": "sim/props/c26.go", "serves_properties": ["C26"],
+     "kind_free_text": "real cdc FIFO (bbolt) driven sequentially with crash images at quiescent points against a sequential model"},
 ]
 
 NOT_APPLICABLE = {
